@@ -183,3 +183,98 @@ Definition e_c08_offsets (v : val) : val :=
       VL [VS "vcf-simple"; VZ Gen.Formats.off_read_vcf_simple];
       VL [VS "vcf-sites"; VZ Gen.Formats.off_read_vcf_sites];
       VL [VS "picardhs"; VZ Gen.Formats.off_read_picardhs]].
+
+(* ---- extension entries ------------------------------------------------------------ *)
+
+(* [tags; keep_type|None; lines] -> rows with extras [gene; strand; type] *)
+Definition e_c08_read_gff (v : val) : val :=
+  match v with
+  | VL [tg; kt; ls] =>
+      match getList getS tg, getOpt getS kt, getLines ls with
+      | Some tg, Some kt, Some ls => vOptTable (read_gff_full tg kt ls)
+      | _, _, _ => bad_input
+      end
+  | _ => bad_input
+  end.
+
+(* [tags; attribute] -> gene label *)
+Definition e_c08_gff_gene (v : val) : val :=
+  match v with
+  | VL [tg; VS attr] =>
+      match getList getS tg with Some tg => VS (gff_gene tg attr) | None => bad_input end
+  | _ => bad_input
+  end.
+
+Definition e_c08_gff_default_tags (v : val) : val := VL (map VS Gen.Formats.gff_default_tags).
+
+(* [fmt; lines] for the readers added by the extension *)
+Definition e_c08_read2 (v : val) : val :=
+  match v with
+  | VL [VS fmt; ls] =>
+      match getLines ls with
+      | Some ls =>
+          if String.eqb fmt "picardhs" then vOptTable (read_picardhs_full ls)
+          else if String.eqb fmt "vcf-simple" then vOptTable (read_vcf_simple_rows Gen.Formats.off_read_vcf_simple ls)
+          else if String.eqb fmt "vcf-sites" then vOptTable (read_vcf_simple_rows Gen.Formats.off_read_vcf_sites ls)
+          else VErr "format"
+      | None => bad_input
+      end
+  | _ => bad_input
+  end.
+
+(* [[END|None; line] ...] -> rows, as vcfio through pysam *)
+Definition e_c08_read_vcfio (v : val) : val :=
+  match getList (getPair (getOpt getZ) getLine) v with
+  | Some ls => vOptTable (read_vcfio ls)
+  | None => bad_input
+  end.
+
+(* table -> lines of the generic BED writer *)
+Definition e_c08_write_bed (v : val) : val :=
+  match getTable v with Some t => vLines (write_bed t) | None => bad_input end.
+
+Definition getNames (v : val) : option (list (string * string)) := getList (getPair getS getS) v.
+
+(* [name map; prefix; lines] -> samples, rows in file order / sorted *)
+Definition e_c08_parse_seg_names (v : val) : val :=
+  match v with
+  | VL [nm; VS prefix; ls] =>
+      match getNames nm, getLines ls with
+      | Some nm, Some ls =>
+          match parse_seg_names nm prefix ls with Some s => vSamples s | None => VErr "parse" end
+      | _, _ => bad_input
+      end
+  | _ => bad_input
+  end.
+
+Definition e_c08_import_seg_names (v : val) : val :=
+  match v with
+  | VL [nm; VS prefix; ls] =>
+      match getNames nm, getLines ls with
+      | Some nm, Some ls =>
+          match import_seg_names nm prefix ls with Some s => vSamples s | None => VErr "parse" end
+      | _, _ => bad_input
+      end
+  | _ => bad_input
+  end.
+
+(* first sample's rows -> [forward id map; inverse map] *)
+Definition e_c08_seg_ids (v : val) : val :=
+  match getTable v with
+  | Some t =>
+      let pairs (m : list (string * string)) := VL (map (fun p => VL [VS (fst p); VS (snd p)]) m) in
+      VL [pairs (create_chrom_ids t); pairs (seg_ids_inverse t)]
+  | None => bad_input
+  end.
+
+(* [start; ref; alt; info] -> end of vcf-simple / vcf-sites, None = int() error *)
+Definition e_c08_vcf_simple_end (v : val) : val :=
+  match v with
+  | VL [VZ start; VS ref; VS alt; VS info] =>
+      match vcf_simple_end start ref alt info with Some e => VZ e | None => VErr "int" end
+  | _ => bad_input
+  end.
+
+(* str.rstrip() *)
+Definition e_c08_rstrip (v : val) : val :=
+  match getS v with Some s => VS (rstrip_ws s) | None => bad_input end.
